@@ -110,35 +110,36 @@ Proof. destruct a as [|n [|x]]; exact I. Qed.
 Lemma res_safe_iff {A} (r : res A) : res_safe r = true <-> safe r.
 Proof. destruct r; cbn; intuition discriminate. Qed.
 
-(** MsgCreateClient dereferences msg.ClientState before UnpackClientState's nil check *)
-Lemma msg_client_validate_basic_refuted : exists m, msg_client_validate_basic m = Panic.
-Proof. exists (CreateClient true AnyNil AnyNil). reflexivity. Qed.
+Lemma any_too_large_total {A} (a : AnyP A) mx : exists b, any_too_large a mx = Ok b.
+Proof. destruct a; cbn; eauto. Qed.
 
-Lemma create_client_nil_client_state_panics cst :
-  msg_client_validate_basic (CreateClient true AnyNil cst) = Panic.
-Proof. reflexivity. Qed.
+(** MsgCreateClient with an absent client_state / consensus_state is rejected with an error (no dereference) *)
+Lemma create_client_nil_client_state_errs sg cst :
+  msg_client_validate_basic (CreateClient sg AnyNil cst) = Err.
+Proof. destruct sg; reflexivity. Qed.
 
-Lemma create_client_nil_consensus_state_panics n t :
-  msg_client_validate_basic (CreateClient true (AnyVal n (CVal (mkCS t (Ok tt)))) AnyNil) = Panic \/
-  32768 < n.
+Lemma create_client_nil_consensus_state_errs n t v :
+  v = Ok tt \/ v = Err ->
+  msg_client_validate_basic (CreateClient true (AnyVal n (CVal (mkCS t v))) AnyNil) = Err.
 Proof.
-  cbn. destruct (32768 <? n) eqn:E; [right; lia|left; reflexivity].
+  intros [-> | ->]; cbn; destruct (32768 <? n); reflexivity.
 Qed.
 
-Lemma msg_client_validate_basic_guarded m :
-  msg_client_derefs_ok m = true -> msg_client_externals_safe m = true -> safe (msg_client_validate_basic m).
+(** every client message is panic-free as soon as the light-client methods it calls are *)
+Lemma msg_client_validate_basic_safe m :
+  msg_client_externals_safe m = true -> safe (msg_client_validate_basic m).
 Proof.
   destruct m as [sg cs cst|sg cm cid|cs cst pc pcs sg cid|sg a b|sg up plan|sg cid];
-    cbn [msg_client_validate_basic msg_client_derefs_ok msg_client_externals_safe]; intros Hd He.
+    cbn [msg_client_validate_basic msg_client_externals_safe]; intros He.
   - sb; [auto with np|].
-    destruct cs as [|n c]; [discriminate|]. cbn [any_value_len bind].
-    destruct (_ <? _); [exact I|].
-    destruct c as [|clientState]; [exact I|]. cbn [unpack bind].
-    apply andb_true_iff in He. destruct He as [He1 He2]. cbn [any_safe] in He1.
-    apply res_safe_iff in He1. sb; [exact He1|].
-    destruct cst as [|n2 c2]; [discriminate|]. cbn [any_value_len bind].
-    destruct (_ <? _); [exact I|].
-    destruct c2 as [|consensusState]; [exact I|]. cbn [unpack bind].
+    destruct (any_too_large_total cs 32768) as [big ->]. cbn [bind].
+    destruct big; [exact I|].
+    apply andb_true_iff in He. destruct He as [He1 He2].
+    destruct cs as [|n [|clientState]]; try exact I. cbn [unpack bind].
+    cbn [any_safe] in He1. apply res_safe_iff in He1. sb; [exact He1|].
+    destruct (any_too_large_total cst 32768) as [big2 ->]. cbn [bind].
+    destruct big2; [exact I|].
+    destruct cst as [|n2 [|consensusState]]; try exact I. cbn [unpack bind].
     destruct (negb _); [exact I|].
     sb; [apply validate_client_type_safe|].
     cbn [any_safe] in He2. apply res_safe_iff in He2. exact He2.
@@ -154,17 +155,34 @@ Proof.
     destruct (is_valid_client_id_total cid) as [b ->]. cbn [bind]. destruct b; exact I.
 Qed.
 
-(** every message other than MsgCreateClient is panic-free as soon as the light-client methods it calls are *)
-Lemma msg_client_validate_basic_only_create m :
-  msg_client_externals_safe m = true -> msg_client_validate_basic m = Panic ->
-  exists sg cs cst, m = CreateClient sg cs cst /\ (cs = AnyNil \/ cst = AnyNil).
+(** a panic of a client message can only come from a light-client method it calls *)
+Lemma msg_client_validate_basic_panic_external m :
+  msg_client_validate_basic m = Panic -> msg_client_externals_safe m = false.
 Proof.
-  intros He Hp.
-  destruct (msg_client_derefs_ok m) eqn:Hd.
-  - pose proof (msg_client_validate_basic_guarded m Hd He) as S. rewrite Hp in S. contradiction.
-  - destruct m; cbn in Hd; try discriminate.
-    exists signer_ok, client_state, consensus_state. split; [reflexivity|].
-    destruct client_state; [left; reflexivity|]. destruct consensus_state; [right; reflexivity|discriminate].
+  intros Hp. destruct (msg_client_externals_safe m) eqn:He; [|reflexivity].
+  pose proof (msg_client_validate_basic_safe m He) as S. rewrite Hp in S. contradiction.
+Qed.
+
+(** ---------------------------------------------------------------- solo machine misbehaviour *)
+Lemma sig_data_validate_basic_safe sd : safe (sig_data_validate_basic sd).
+Proof. unfold sig_data_validate_basic. split_ifs; exact I. Qed.
+
+Lemma solo_misbehaviour_validate_basic_safe seq s1 s2 : safe (solo_misbehaviour_validate_basic seq s1 s2).
+Proof.
+  unfold solo_misbehaviour_validate_basic.
+  destruct (seq =? 0); [exact I|].
+  destruct s1 as [a|]; cbn [is_nil orb]; [|exact I].
+  destruct s2 as [b|]; cbn [is_nil]; [|exact I].
+  cbn [ptr_deref bind]. sb; [apply sig_data_validate_basic_safe|]. sb; [apply sig_data_validate_basic_safe|].
+  split_ifs; exact I.
+Qed.
+
+Lemma solo_misbehaviour_nil_sig_errs seq s : 
+  solo_misbehaviour_validate_basic seq None s <> Ok tt /\ solo_misbehaviour_validate_basic seq s None <> Ok tt /\
+  solo_misbehaviour_validate_basic seq None s <> Panic /\ solo_misbehaviour_validate_basic seq s None <> Panic.
+Proof.
+  unfold solo_misbehaviour_validate_basic. destruct (seq =? 0); [repeat split; discriminate|].
+  destruct s; cbn; repeat split; discriminate.
 Qed.
 
 Definition ok_chan : Channel := mkChan 1 1 (mkCp (B "transfer") []) [B "connection-0"].
@@ -180,5 +198,8 @@ Example msgs_nonvacuous :
   msg_client_validate_basic (CreateClient true (AnyVal 10 (CVal (mkCS (B "07-tendermint") (Ok tt))))
                                                (AnyVal 10 (CVal (mkCS (B "07-tendermint") (Ok tt))))) = Ok tt /\
   msg_client_validate_basic (CreateClient true (AnyVal 10 CNone) AnyNil) = Err /\
+  msg_client_validate_basic (CreateClient true AnyNil AnyNil) = Err /\
+  solo_misbehaviour_validate_basic 1 (Some (mkSD (B "s1") (B "d1") (B "p") 5)) (Some (mkSD (B "s2") (B "d2") (B "p") 5)) = Ok tt /\
+  solo_misbehaviour_validate_basic 1 None (Some (mkSD (B "s2") (B "d2") (B "p") 5)) = Err /\
   validate_client_type (B "07-tendermint") = Ok tt /\ validate_client_type (B "-bad") = Err.
 Proof. vm_compute. repeat split; reflexivity. Qed.
